@@ -431,38 +431,38 @@ def enfOp (st : EnfSt) (ts : List String) : Option (EnfSt × String × String ×
           let rules ← decodeRules rs
           let pr ← parsePersist per
           let (e', aff, err) := e.addPoliciesSelf pr sec pt rules
-          some ({ st with enf := some { ep with base := e' }.syncCache }, s!"A {encodeRules aff} E {if err then 1 else 0}", "-", true)
+          some ({ st with enf := some { ep with base := e' }.syncCache, histOk := st.histOk && stateOk e' }, s!"A {encodeRules aff} E {if err then 1 else 0}", "-", true)
       | "dist-rm", per :: sec :: pt :: rs => do
           let rules ← decodeRules rs
           let pr ← parsePersist per
           let (e', aff, err) := e.removePoliciesSelf pr sec pt rules
-          some ({ st with enf := some { ep with base := e' }.syncCache }, s!"A {encodeRules aff} E {if err then 1 else 0}", "-", true)
+          some ({ st with enf := some { ep with base := e' }.syncCache, histOk := st.histOk && stateOk e' }, s!"A {encodeRules aff} E {if err then 1 else 0}", "-", true)
       | "dist-rmf", per :: sec :: pt :: fi :: vals => do
           let fi ← fi.toNat?
           let vs ← decodeAll vals
           let pr ← parsePersist per
           match e.removeFilteredPolicySelf pr sec pt fi vs with
           | some (e', aff, err) =>
-              some ({ st with enf := some { ep with base := e' }.syncCache }, s!"A {encodeRules aff} E {if err then 1 else 0}", "-", true)
+              some ({ st with enf := some { ep with base := e' }.syncCache, histOk := st.histOk && stateOk e' }, s!"A {encodeRules aff} E {if err then 1 else 0}", "-", true)
           | none => some ({ st with histOk := false }, "panic", "-", false)
       | "dist-clear", [per] => do
           let pr ← parsePersist per
           let (e', err) := e.clearPolicySelf pr
-          some ({ st with enf := some { ep with base := e' }.syncCache }, s!"E {if err then 1 else 0}", "-", true)
+          some ({ st with enf := some { ep with base := e' }.syncCache, histOk := st.histOk && stateOk e' }, s!"E {if err then 1 else 0}", "-", true)
       | "dist-upd", per :: sec :: pt :: rest => do
           let pr ← parsePersist per
           let (a, b) ← splitTwo "|" rest
           let old ← decodeAll a
           let new ← decodeAll b
           let (e', upd, err) := e.updatePolicySelf pr sec pt old new
-          some ({ st with enf := some { ep with base := e' }.syncCache }, s!"{showBool upd} E {if err then 1 else 0}", "-", true)
+          some ({ st with enf := some { ep with base := e' }.syncCache, histOk := st.histOk && stateOk e' }, s!"{showBool upd} E {if err then 1 else 0}", "-", true)
       | "dist-upds", per :: sec :: pt :: rest => do
           let pr ← parsePersist per
           let (a, b) ← splitTwo "||" rest
           let olds ← decodeRules a
           let news ← decodeRules b
           let (e', upd, err) := e.updatePoliciesSelf pr sec pt olds news
-          some ({ st with enf := some { ep with base := e' }.syncCache }, s!"{showBool upd} E {if err then 1 else 0}", "-", true)
+          some ({ st with enf := some { ep with base := e' }.syncCache, histOk := st.histOk && stateOk e' }, s!"{showBool upd} E {if err then 1 else 0}", "-", true)
       | "addmf", [gt, f] =>
           let (ep', ok) := ep.addMatchingFunc gt f
           retP ep' (showBool ok) "-" true
